@@ -114,6 +114,17 @@ Example C05_demo_duplicate_rejected :
   /\ wf_ids_b demo = true /\ wf_ids_b (set_parent_write demo 3 (Some 2)) = false.
 Proof. vm_compute. repeat split; reflexivity. Qed.
 
+(* bulk children assignment: [1; 2].children = [3] is rejected by the first element (3 has the id of 1); with a free
+   task 4 of id 2, [3; 1].children = [4] is accepted by the free task 3 and rejected by task 1 (its WBS holds id 2
+   already): the whole call is undone, ids stay unique; [2].children = [] is accepted *)
+Example C05_demo_bulk :
+  let s := fst (step demo (NewTask 2%Z None [] None)) in
+  map (fun o => (pub_args s o, outcome_code (snd (step s o)), wf_ids_b (fst (step s o))))
+      [LstSetChildren [1; 2] [Some 3]; LstSetChildren [3; 1] [Some 4]; LstSetChildren [2] []]
+    = [(true, 1, true); (true, 1, true); (true, 0, true)]
+  /\ snd (set_children s 3 [Some 4]) = OK /\ fst (step s (LstSetChildren [3; 1] [Some 4])) = s.
+Proof. vm_compute. repeat split; reflexivity. Qed.
+
 (* lookup and enumeration on the demo state *)
 Example C05_demo_lookup :
   wbs_tasks demo 0 = Ok [1; 2] /\ wbs_getitem demo 0 2%Z = Ok 2 /\ wbs_getitem demo 0 1%Z = Ok 1 /\ wbs_getitem demo 0 7%Z = Err.
@@ -139,5 +150,6 @@ Print Assumptions C05_reach.
 Print Assumptions C05_oracle.
 Print Assumptions C05_demo_reachable.
 Print Assumptions C05_demo_duplicate_rejected.
+Print Assumptions C05_demo_bulk.
 Print Assumptions C05_demo_lookup.
 Print Assumptions C05_illformed_rejected_by_wf_ids_b.
